@@ -267,7 +267,7 @@ def gen_frags(ctx):
                 lines.append("frags %d,%d" % (a, b))
                 lines.append("frags %d,%d,7" % (a, b))
                 lines.append("frags %d,0,%d,0,1" % (a, b))
-    n = 300 if not ctx.thorough else 4000
+    n = 300 if not ctx.thorough else 12000
     for i in range(n):
         r = C.rng("c19-frags", i)
         k = r.choice((2, 3, 5, 8, 20, 60))
@@ -356,7 +356,7 @@ def gen_offers(ctx):
         for lv in levels:
             out.append((lv, l.encode(), None, "long"))
     # seeded: grammar based with junk and mutations
-    n = 600 if not ctx.thorough else 12000
+    n = 600 if not ctx.thorough else 40000
     alphabet = " ;,=_-\"\t0123456789" + "abcdeilmnoprstvwx"
     pool = [CMW, SMW, CNC, SNC] + ["%s=%d" % (CMW, b) for b in range(7, 17)] + ["%s=%d" % (SMW, b) for b in range(7, 17)] + \
         ["foo", "x=1", CNC + "x", SNC + "=1", CMW + "=\"12\"", "", " "]
@@ -468,7 +468,7 @@ def gen_rt(ctx, maxmsg):
         msgs.append(payload_of("text", 700, r))
         add(s, r.choice(modes), r.choice(cutsets), msgs)
     # seeded
-    n = 150 if not ctx.thorough else 2500
+    n = 150 if not ctx.thorough else 8000
     for i in range(n):
         r = C.rng("c19-rt", i)
         s = r.choice(setups + setups_o)
@@ -487,7 +487,7 @@ def gen_rt(ctx, maxmsg):
 def gen_corrupt(ctx):
     out = []
     setups = ["L1:8:1:9:1", "L2:12:0:12:0", "L3:15:0:15:0", "L2:9:1:10:0"]
-    n = 500 if not ctx.thorough else 10000
+    n = 500 if not ctx.thorough else 40000
     for i in range(n):
         r = C.rng("c19-mut", i)
         kind = r.choice(("zero", "rand", "text", "rep", "high"))
@@ -521,6 +521,22 @@ def gen_corrupt(ctx):
         for s in setups[:3]:
             for mode, cuts in (("comp", "-"), ("ws", "1,1"), ("text", "0,0"), ("comp", "0")):
                 out.append("dec %s %s %s %s" % (s, mode, cuts, hx(j)))
+    return out
+
+
+def gen_comp(ctx):
+    """websocket_compress alone: (line, payload length)."""
+    out = []
+    setups = ["L1:8:1:9:1", "L2:12:0:12:0", "L3:15:0:15:0", "L2:12:0:9:1"]
+    r = C.rng("c19-comp")
+    for n in list(range(0, 24)) + [31, 32, 33, 64, 100, 255, 256, 257, 511, 512, 513, 1000, 4096] + ([20000, 70000] if ctx.thorough else []):
+        for kind in ("zero", "rand", "high", "text", "rep"):
+            for s in setups:
+                out.append(("comp %s %s" % (s, hx(payload_of(kind, n, r))), n))
+    for i in range(200 if not ctx.thorough else 6000):
+        r = C.rng("c19-comp", i)
+        n = r.choice((r.randrange(0, 10), r.randrange(0, 40), r.randrange(0, 3000)))
+        out.append(("comp %s %s" % (r.choice(setups), hx(payload_of(r.choice(("zero", "rand", "high", "text", "rep")), n, r))), n))
     return out
 
 
@@ -651,7 +667,7 @@ def run(ctx, out):
             if not bad and mod is not None and l.split()[0] in ("frags", "offer") and canon(mod[k]) != canon(r["obs"]):
                 bad = "model and implementation differ"
             if bad and f.get("status") == "fixed":
-                out.violation("regression of fixed finding %s: %s" % (f["id"], bad),
+                out.violation("regression scenario of fixed finding %s fails: %s" % (f["id"], bad),
                               {"property": "C19", "finding": f["id"], "script": [l], "variant": "default", "seed": ctx.seed,
                                "impl": r, "model": mod[k] if mod else None, "clause": bad})
 
@@ -801,10 +817,6 @@ def run(ctx, out):
                 v.append("websocket_compress fails on a payload whose deflate output exceeds 2*len (F37) and no open finding lists it")
         if v:
             rbad.append((l, meta, r, v))
-    if (f37_seen or f37_replay) and open_f37:
-        out.known_finding("F37 websocket_compress offers zlib 2*len bytes: payloads of <= 5 bytes (some of 6, the empty one) are "
-                          "truncated, read outside dest, or answered -1 (directed replay %s; %d generated scenarios inside the trigger)"
-                          % ("reproduces" if f37_replay else "does not reproduce", f37_seen))
     for (l, meta, r, v) in rbad[:3]:
         # shrink: single message, shorter payload
         w = l.split()
@@ -823,6 +835,49 @@ def run(ctx, out):
     cov["round_trips"] = {"scenarios": len(rlines), "messages": nmsgs, "failing": len(rbad), "f37_scenarios": f37_seen,
                           "message_limit": maxmsg}
 
+    # ------------------------------------------------------------------ 3b. websocket_compress against the model
+    comps = gen_comp(ctx)
+    klines = [l for l, _ in comps]
+    kres = run_impl(binp, klines, chunk=200)
+    mlines, midx = [], []
+    for k, ((l, n), r) in enumerate(zip(comps, kres)):
+        m = re.search(r"full=([0-9a-f]+|-)", r["obs"])
+        if m:
+            mlines.append("comp %d %s" % (n, m.group(1)))
+            midx.append(k)
+    kmod = model(mlines)
+    kbad = []
+    for j, k in enumerate(midx):
+        (l, n), r = comps[k], kres[k]
+        traces += 1
+        evals += 1
+        full = C.unhex(re.search(r"full=([0-9a-f]+|-)", r["obs"]).group(1))
+        trig = n == 0 or len(full) > 2 * n
+        bump("comp.trigger" if trig else "comp.fits")
+        got = "comp WILD" if "abort" in r else canon(re.sub(r"full=\S+ ", "", r["obs"]))
+        if trig:
+            f37_seen += 1
+        clause = None
+        if "abort" in r and not (trig and open_f37):
+            clause = "sanitizer abort %s at %s" % (r["abort"]["kind"], r["abort"]["where"])
+        elif not trig and ("tail=1" not in got or "ret=%d " % (len(full) - 4) not in got + " " or
+                           C.unhex(re.search(r"out=(\S+)", got).group(1)) + bytes([0, 0, 255, 255]) != full):
+            clause = "compressed message is not zlib's output without its tail"
+        elif trig and not open_f37:
+            clause = "deflate output longer than 2*len (F37) and no open finding lists it"
+        differs = kmod is not None and canon(kmod[j]) != got
+        if clause or differs:
+            kbad.append((l, r, kmod[j] if kmod else None, clause))
+    for (l, r, m, clause) in kbad[:3]:
+        out.violation("websocket_compress: " + (clause or "model and implementation differ"),
+                      {"property": "C19", "script": [l], "variant": "default", "seed": ctx.seed, "impl": r, "model": m,
+                       "clause": clause, "theorem": "tail_roundtrip / compress (Cjet.Deflate)"}, no_input=not clause)
+    cov["compress"] = {"ops": len(klines), "compared_with_model": len(mlines), "disagreements": len(kbad)}
+
+    if (f37_seen or f37_replay) and open_f37:
+        out.known_finding("F37 websocket_compress offers zlib 2*len bytes: payloads of <= 5 bytes (some of 6, the empty one) are "
+                          "truncated, read outside dest, or answered -1 (directed replay %s; %d generated scenarios inside the trigger)"
+                          % ("reproduces" if f37_replay else "does not reproduce", f37_seen))
     # ------------------------------------------------------------------ 4. corrupt streams
     clines = gen_corrupt(ctx)
     cres = run_impl(binp, clines, chunk=200)
